@@ -129,6 +129,8 @@ def run_config(cfg, builtin_name="scale"):
         extra["fv_rec"] = rec
     chain = [m["caller"] for m in mods]
     dm_args = ((formula, df), {"env": env, "extra_namespace": extra})
+    if env == 0 and role == "callee" and "extra" not in defined and len(defined) % 2 == 0:
+        dm_args = ((formula, df), {})   # the defaults: the direct caller's scopes, no extra namespace
     LAST_PROBED[0] = False
     try:
         try:
